@@ -68,12 +68,16 @@ chk('C12', 'model_checking',
     'positions as two top-level trees); each final state is replayed into '
     'ddsmt.nodes in-process (==, hash, deepcopy, pickle, dfs/bfs with depth '
     'limits, counts, filter_nodes) and across a fork-based Pool(3) under three '
-    'leaf-text expansions (ASCII, empty string, non-BMP Unicode).',
+    'leaf-text expansions (ASCII, empty string, non-BMP Unicode). '
+    'IdCounter.tla models the shared id counter (lock, increment, read as '
+    'separate steps of several processes; TLC: Unique); histories of ids '
+    'handed to processes constructing nodes concurrently are judged by TLC '
+    '(IdCounter!HistoryOK).',
     'Hash collisions between different shapes are not constructed; trees '
     'beyond the bound are not enumerated.',
     'TLA+ reference operators on TLC-enumerated trees replayed into the '
     'implementation, in-process and across processes',
-    'GenForest.tla, SExpr.tla', 'DESIGN.md section 5, C12')
+    'GenForest.tla, SExpr.tla, IdCounter.tla, Conform.tla', 'DESIGN.md section 5, C12')
 
 chk('C13', 'model_checking',
     'SExpr!ReduplicateOK / DistinctIds evaluated by TLC on every forest with '
@@ -133,10 +137,13 @@ chk('C05', 'model_checking',
     'permissive commands so that several candidates of a sweep succeed, '
     'seeded delays) are validated by TLC: every write must be the adoption of '
     'a task of the current sweep/batch derived from the current input and '
-    'accepted by a check of exactly that candidate.',
+    'accepted by a check of exactly that candidate. In further runs the '
+    'completion order of the checks is dictated by a scheduler the command '
+    'blocks on (every sequence of choices of a depth), and the main loop is '
+    'delayed after successes; all validated by TLC.',
     STRAT_NOTE,
     'TLC model checking of all interleavings + TLC trace validation of '
-    'free-running parallel executions',
+    'free-running and schedule-enumerated parallel executions',
     'Hier.tla, Ddmin.tla, TraceHier.tla, TraceDdmin.tla',
     'DESIGN.md section 5, C05')
 
@@ -173,20 +180,24 @@ chk('C15', 'model_checking',
 
 chk('C04', 'model_checking',
     'Main.tla states the phases, usage errors and exit status (TLC: status 0 '
-    'iff the run reached the report phase) and generates the usage matrix; '
+    'iff the run reached the report phase) and generates the usage matrix '
+    '(faults, golden runs that time out, every general option); '
     'GenShapes.tla generates every special identifier of the sources x arity '
-    'x child shape. Every shape (top level and inside an assert, plus '
-    'unbalanced/odd texts) is replayed through everything ddSMT runs '
+    'x child shape, GenEdits.tla every declaration / definition / binder '
+    'command with one or two subtrees erased or replaced. Every shape (top '
+    'level, inside an assert, as a let-bound term, plus unbalanced/odd/deep '
+    'texts) is replayed through everything ddSMT runs '
     'unguarded in its main process (parser, theory detection, information '
     'collection, ddmin task generation for every mutator and granularity, '
-    'the hierarchical producer, all writers); every situation of the matrix '
+    'the hierarchical producer - whose task list must equal the proposals '
+    'of the mutators guarded one by one -, all writers); every situation of the matrix '
     'is replayed through bin/ddsmt and python -m ddsmt; sampled shapes run '
     'end to end against keyword-adversarial commands.',
     'Special identifiers are collected from quoted strings of the sources; '
     'arity <= 2 (quick) / 3 (thorough), one level of nesting.',
     'TLA+ generators (usage matrix, shapes) enumerated by TLC and replayed '
     'into the main-process code paths and the real CLI',
-    'Main.tla, GenShapes.tla', 'DESIGN.md section 5, C04')
+    'Main.tla, GenShapes.tla, GenEdits.tla', 'DESIGN.md section 5, C04')
 
 chk('C06', 'fault_enumeration',
     'OutFile.tla is a POSIX file-system model with the state invariant '
@@ -345,6 +356,10 @@ ENGINES = [
     ('Options.tla', 'specs/Options.tla', 'TLA+ spec: mutator options'),
     ('OptionsTrace.tla', 'specs/OptionsTrace.tla',
      'TLA+ case validation for options'),
+    ('GenEdits.tla', 'specs/GenEdits.tla',
+     'TLA+ spec: generator of edited (ill-formed) commands'),
+    ('IdCounter.tla', 'specs/IdCounter.tla',
+     'TLA+ spec: shared node-id counter across processes'),
     ('Rewrite.tla', 'specs/Rewrite.tla',
      'TLA+ spec: proposal relation as transition system'),
     ('Conform.tla', 'specs/Conform.tla',
